@@ -110,12 +110,45 @@ def generate_walks(prop, tier, wd):
         extra.append((cases2, s2))
     return runs, [(cases, summary)] + extra
 
+FRAME_CFG = """SPECIFICATION TSpec
+INVARIANT Report
+POSTCONDITION Accepted
+CHECK_DEADLOCK FALSE
+"""
+
+def transport_drop_cases(verdict, wd, tier):
+    """C18 over the real transports: the reader of a half-received message is dropped."""
+    import check_framing
+    cases, gr = check_framing.tlc_cases("F6", "C18-gen-F6")
+    out = []
+    for tr in check_framing.TRANSPORTS:
+        for k, c in enumerate(cases):
+            d = dict(c); d.update({"transport": tr, "case": f"{tr}-F6-{k}", "family": "F6",
+                                   "pause_after_first_ms": 150, "drop_first_after_ms": 50})
+            out.append(d)
+    cpath = os.path.join(wd, "dropmid.ndjson")
+    with open(cpath, "w") as f:
+        for c in out:
+            f.write(json.dumps(c) + "\n")
+    trace = os.path.join(wd, "dropmid.trace")
+    run_harness("framing", ["run", cpath, wd, 8], trace)
+    stats, viols = validate_trace("FramingTrace", trace, "C18", "C18-dropmid", FRAME_CFG, nchunks=2, independent=True)
+    dropped = sum(1 for l in open(trace) if '"out":"dropped"' in l)
+    bycase = {c["case"]: c for c in out}
+    for v in viols:
+        if v["prop"] != "C18":
+            continue
+        verdict.report(v["rule"], v["disc"], {"property": "C18", "rule": v["rule"], "disc": v["disc"],
+                                              "case": bycase.get(v.get("case")), "transport_case": True},
+                       detail=f"case={v.get('case')} n={v.get('n', 1)}")
+    return {"cases": len(out), "reader_really_dropped_mid_message": dropped, "tlc_gen": gr}
+
 def check(prop, tier):
     t0 = time.time()
     thorough = tier == "thorough"
     verdict = Verdict(prop)
     wd = workdir(f"{prop}-{tier}")
-    build_harness(["sess"])
+    build_harness(["sess", "framing"] if prop == "C18" else ["sess"])
     tlc_runs = design_checks(prop, tier)
     dev_reproduced_in_model = None
     if prop == "C18":
@@ -194,6 +227,10 @@ def check(prop, tier):
     }
     if dev_reproduced_in_model is not None:
         cov["named_deviation_reproduced_in_model"] = dev_reproduced_in_model
+    if prop == "C18":
+        td = transport_drop_cases(verdict, wd, tier)
+        cov["real_transport_drop_cases"] = {"cases": td["cases"],
+                                            "reader_really_dropped_mid_message": td["reader_really_dropped_mid_message"]}
     write_evidence(prop, tier, "model_checking", cov,
                    ["tokio::sync::Mutex hands a released lock to waiters in FIFO order (modelled so)",
                     "in-memory transport is cancel-safe and delivers whole messages",
@@ -204,8 +241,11 @@ def check(prop, tier):
 
 def replay(prop, path):
     """Re-execute the case stored in a replay file and validate it again."""
-    build_harness(["sess"])
     payload = json.load(open(path))
+    if payload.get("transport_case"):
+        import check_framing
+        return check_framing.replay(prop, path)
+    build_harness(["sess"])
     wd = workdir(f"{prop}-replay")
     cases = os.path.join(wd, "replay.cases")
     with open(cases, "w") as f:
